@@ -10,7 +10,7 @@ TECH = 'contract-based deductive verification (Verus/Z3) of function text extrac
 
 CLAIMED = {
     'C02': dict(
-        text='Deductive proof of frame conditions over the real text of MemoryLoc::{with_offset,into_value,write_val,write_all,memset}, UnwrapOrAlloca::unwrap_or_alloca and the variant->enum arm of cast_into_memory: every store these functions emit lies inside the destination object [loc, loc+size(ty)) (and a freshly allocated slot is exactly size(ty) bytes), for all types, offsets and loop iterations.',
+        text='Deductive proof of frame conditions over the real text of MemoryLoc::{with_offset,into_value,write_val,write_all,memset}, UnwrapOrAlloca::unwrap_or_alloca the variant->enum arm of cast_into_memory, create_nil_value and the nil branch of the optional->optional arm: every store these functions emit lies inside the destination object [loc, loc+size(ty)) (and a freshly allocated slot is exactly size(ty) bytes), for all types, offsets and loop iterations.',
         note='Partial: cast_into_memory as a whole, cast_struct_to_struct, cast_array_to_array and the ABI copy loops are not under contract -- only the store-emitting callees they use. Trusted: Cranelift store footprints (shims/verus/clif.rs), layout contracts (proved in unit layout), disjointness of distinct slots/objects, operands carry their type\'s width. "A copy is made on assignment" is only covered as "the copy writes exactly the destination".',
         ref='DESIGN.md 5 (C02)'),
     'C08': dict(
@@ -39,7 +39,7 @@ CLAIMED = {
         ref='DESIGN.md 5 (C18)'),
     'C19': dict(
         text="Deductive proof over the real text of crates/codegen/src/convert/abi/x86_64.rs against the System V AMD64 psABI section 3.2.3 as transcribed in units/abi/spec.rs: Class::merge_eigthbyte is the psABI merge (rules a, b, d, f; commutative, associative); classify_eight_byte gives every eightbyte of ANY type (scalars, arrays, structs, enums, optionals, error unions, distinct types, nested to any depth) the merge of the classes of the scalars that lie in it (recursive spec eb_class, unbounded induction over the type); classify_arg returns exactly that for types of at most 16 bytes and MEMORY otherwise; the post-merger clean-up of classify_arg (lifted) implements rules (c) and (d); reg_component / split_aggregate give every eightbyte of an aggregate of 1..16 bytes a register of that eightbyte's class wide enough for the bytes left, the second one starting at byte 8; fn_ty_to_abi hands out the six integer and eight vector registers left to right exactly as the psABI prescribes -- an argument gets registers only if ALL its eightbytes get one, otherwise it goes to memory and consumes none, a MEMORY-class return value costs %rdi, zero-sized arguments cost nothing -- for every signature with any number of parameters.",
-        note='Partial: FnAbi::{to_cl,get_arg_list,ret_addr,handle_ret,build_fn} (the loads/stores that move the eightbytes) are not under contract; Cranelift is trusted to assign the host registers to the value types computed; domain conditions (explicit preconditions): layouts of all parts known, size != 64 bytes, 8-byte pointers, no pure-padding eightbyte in a small aggregate, scalars aligned (C17); only the x86-64 SysV file is covered (aarch64 / windows / simplified are not); comparison with the host gcc is not part of the proof.',
+        note='A BOUNDED stand-in (unit abi_bounded, through the cfg(capy_verif) hook) runs the real lowering on all structs of at most 2 (quick) / 3 (thorough) fields from a 15-element field set in 8 signatures each against a reference written from the psABI; it decides when a refactoring loses the proof and supplies concrete inputs. Partial: FnAbi::{to_cl,get_arg_list,ret_addr,handle_ret,build_fn} (the loads/stores that move the eightbytes) are not under contract; Cranelift is trusted to assign the host registers to the value types computed; domain conditions (explicit preconditions): layouts of all parts known, size != 64 bytes, 8-byte pointers, no pure-padding eightbyte in a small aggregate, scalars aligned (C17); only the x86-64 SysV file is covered (aarch64 / windows / simplified are not); comparison with the host gcc is not part of the proof.',
         ref='DESIGN.md 5 (C19)'),
     'C24': dict(
         text="Deductive proof over the real text of the if/else chain of parse_expr_bp that picks (left_bp, right_bp) (lifted mechanically): for every token, the binding powers are exactly the documented table -- level l gets (2l-1, 2l) for `||` < `&&` < comparisons < `+ - | ~` < `* / % & << >>`, None for any other token -- and that table is proved to have what precedence climbing needs (higher level binds tighter, right power above left power = left associativity). The precedence-climbing loop around the table is recursive over a token stream and an event sink and gets a BOUNDED stand-in: every chain of at most 3 (quick) / 4 (thorough) of the 18 binary operators, also over prefixed and postfixed operands, parsed by the real lexer + parser and compared with the tree the table dictates.",
@@ -106,9 +106,9 @@ def main():
         'setup_cmd': 'true',
         'hooks': {
             'guard': '--cfg capy_verif',
-            'enable': 'none needed: every check extracts function text from /repo\'s working tree on each run; no source hook is compiled in',
+            'enable': 'RUSTFLAGS="--cfg capy_verif" (set by tools/bounded.py when it builds drivers/abi_sysv); every other check extracts function text from /repo\'s working tree and needs no hook',
             'baseline_off_cmd': 'cd /repo && (cargo nextest run --workspace --no-fail-fast --test-threads 8 --offline || cargo test --workspace --no-fail-fast --offline)',
-            'source_commits': [],
+            'source_commits': ['78afeb3'],
             'add_only': True,
         },
         'engines': [
